@@ -16,7 +16,8 @@ import simr
 
 
 def _perturbed(cmd):
-    prefix = ["setarch", os.uname().machine, "-R"] if shutil.which("setarch") else []
+    import simd
+    prefix = ["setarch", os.uname().machine, "-R"] if simd.setarch_works() else []
     env = {"PATH": os.environ.get("PATH", ""), "HOME": "/root", "PAD": "y" * 4099}
     return prefix + cmd, env
 
